@@ -773,4 +773,56 @@ example :
       (fun d => (Factory.globFile ["/*".toList]).trace isWordAscii fs ⟨true, "/r".toList, d.files, d.commands⟩ {}) =
       [.open_ "/r".toList "a".toList, .open_ "/r".toList "c".toList] := by decide
 
+/-! ## (B3) several collect() calls in one process -/
+
+/-- HISTORY INDEPENDENCE: whatever earlier collections of the process left behind (deny sets, the record of skipped
+specs), the components disabled in a collection are exactly those the deny list of THIS collection disables when applied
+once in a fresh process; the literal deny sets keep everything earlier applications put there and contain every entry of
+this one. -/
+theorem collect_step_history_independent (isSpec isComp : Str → Bool) (st : Proc) (cfg : Cfg) :
+    (collectStep isSpec isComp st cfg).disabled = (applyBlacklist isSpec isComp cfg.files cfg.commands cfg.components).disabled ∧
+    (collectStep isSpec isComp st cfg).files = st.files ++ (applyBlacklist isSpec isComp cfg.files cfg.commands cfg.components).files ∧
+    (collectStep isSpec isComp st cfg).commands = st.commands ++ (applyBlacklist isSpec isComp cfg.files cfg.commands cfg.components).commands := by
+  simp [collectStep, applyBlacklistFrom_app, Deny.app]
+
+/-- after ANY history of earlier collections (same deny list, other deny lists, none), the flags of the last collection
+are those of applying its deny list once -/
+theorem collect_history_independent (isSpec isComp : Str → Bool) (st : Proc) (h : List Cfg) (cfg : Cfg) :
+    (runHistory isSpec isComp st (h ++ [cfg])).disabled
+      = (applyBlacklist isSpec isComp cfg.files cfg.commands cfg.components).disabled := by
+  simp only [runHistory, List.foldl_append, List.foldl_cons, List.foldl_nil]
+  exact (collect_step_history_independent isSpec isComp _ cfg).1
+
+example : (runHistory (fun s => s == "date".toList) (fun _ => true) {}
+            [⟨["date".toList], [], ["a.date".toList]⟩, ⟨[], [], []⟩, ⟨["date".toList], [], ["a.date".toList, "b.date".toList]⟩]).disabled
+          = [blPre ++ "date".toList, "a.date".toList, "b.date".toList] := by rfl
+
+/-- idempotence: collecting twice with the same deny list disables the same components the second time, and every literal
+entry is still in force -/
+theorem collect_twice_same (isSpec isComp : Str → Bool) (st : Proc) (cfg : Cfg) :
+    (runHistory isSpec isComp st [cfg, cfg]).disabled = (runHistory isSpec isComp st [cfg]).disabled ∧
+    ∀ f ∈ (runHistory isSpec isComp st [cfg]).files, f ∈ (runHistory isSpec isComp st [cfg, cfg]).files := by
+  constructor
+  · rw [show [cfg, cfg] = [cfg] ++ [cfg] from rfl, collect_history_independent,
+        show [cfg] = ([] : List Cfg) ++ [cfg] from rfl, collect_history_independent]
+  · intro f hf
+    simp only [runHistory, List.foldl_cons, List.foldl_nil] at hf ⊢
+    rw [(collect_step_history_independent isSpec isComp _ cfg).2.1]
+    exact List.mem_append_left _ hf
+
+example : (runHistory (fun _ => false) (fun _ => true) {} [⟨["/etc/a".toList], [], []⟩, ⟨[], [], []⟩]).files = ["/etc/a".toList] := by rfl
+
+/-- a registry point and its implementation, the same component twice, two components sharing the last name segment:
+every named loaded component ends up disabled (no de-duplication by short name) -/
+theorem components_all_disabled (isSpec isComp : Str → Bool) (files commands components : List Str) (c : Str)
+    (hc : c ∈ components) (hk : isComp c = true) :
+    c ∈ (applyBlacklist isSpec isComp files commands components).disabled := by
+  have h := apply_blacklist_seq_wellformed isSpec isComp files commands components
+  exact (apply_blacklist_seq_complete isSpec isComp _ _ _ _ (files.map Item.str) (commands.map Item.str)
+            (components.map Item.str) rfl rfl rfl h).2.2 c (List.mem_map.mpr ⟨c, hc, rfl⟩) hk
+
+example : (applyBlacklist (fun _ => false) (fun _ => true) [] []
+            ["insights.specs.Specs.x".toList, "insights.specs.default.DefaultSpecs.x".toList, "insights.specs.Specs.x".toList]).disabled
+          = ["insights.specs.Specs.x".toList, "insights.specs.default.DefaultSpecs.x".toList, "insights.specs.Specs.x".toList] := by rfl
+
 end IV.Paths
